@@ -1,5 +1,5 @@
 """C03 — DTD results equal sequential execution in insertion order (E2: script generator + interpreter harness + sequential oracle)."""
-import random
+import os, random
 import e2dtd
 from e2dtd import R, W, RW
 
@@ -28,6 +28,7 @@ def prebuild(ctx):
 
 def run(ctx):
     thorough = ctx.tier == 'thorough'
+    sc = lambda n: max(1, int(round(n * float(os.environ.get('VERIF_E2_SCALE', '1')))))    # scratch trials only
     ctx.rule = RULE
     ctx.assumptions = ['sequential interpreters in harness/c03_dtd.c and lib/e2dtd.py (cross-checked on every check point)',
                        'generator legality rules (lib/e2dtd.py header): per-tile insertion order is defined, new tiles written first and flushed once, no wait inside tasks',
@@ -36,7 +37,7 @@ def run(ctx):
     camp = e2dtd.Campaign(ctx, 'C03', 'asan')
     jobs = []
     # ---- single rank: the full feature space
-    n1 = 220 if thorough else 14
+    n1 = sc(220 if thorough else 14)
     ncfg1 = 3 if thorough else 2
     for i in range(n1):
         feat = dict(nested=(i % 3 == 1), dont_track=(i % 4 == 2), ntp=(2 if i % 5 == 3 else 1))
@@ -45,7 +46,7 @@ def run(ctx):
         for c in range(ncfg1):
             jobs.append(dict(script=s, cfg=e2dtd.pick_cfg(rng, 1, thorough, nested=feat['nested']), kind='s1'))
     # ---- multi rank (affinity-driven placement): one round, moderate share of pure readers (see META.note)
-    nm = 60 if thorough else 6
+    nm = sc(60 if thorough else 6)
     for i in range(nm):
         ranks = rng.choice([2, 2, 2, 3, 4]) if thorough else (2 if i < 5 else 3)
         s = e2dtd.gen(ctx.seed * 100000 + 50000 + i, world=ranks, profile='c03', ntasks=rng.randint(20, 120 if thorough else 60), rounds=1,
